@@ -17,6 +17,7 @@
 package oauth2
 
 import (
+	"math"
 	"strconv"
 	"time"
 
@@ -40,7 +41,19 @@ func (n *NumericDate) UnmarshalJSON(b []byte) error {
 		return errorchain.NewWithMessage(heimdall.ErrConfiguration, "failed to parse date").CausedBy(err)
 	}
 
-	*n = NumericDate(f)
+	// values outside of the range of int64 (the result of their conversion is not defined) are
+	// limited to that range. Otherwise, e.g. an nbf claim far in the future could become a
+	// negative value and be ignored
+	switch {
+	case math.IsNaN(f):
+		return errorchain.NewWithMessage(heimdall.ErrConfiguration, "failed to parse date: not a number")
+	case f >= math.MaxInt64:
+		*n = NumericDate(math.MaxInt64)
+	case f <= math.MinInt64:
+		*n = NumericDate(math.MinInt64)
+	default:
+		*n = NumericDate(f)
+	}
 
 	return nil
 }
@@ -51,5 +64,12 @@ func (n *NumericDate) Time() time.Time {
 		return time.Time{}
 	}
 
-	return time.Unix(int64(*n), 0)
+	val := time.Unix(int64(*n), 0)
+	if val.IsZero() {
+		// the zero time value stands for "not set". The very first second of the year 1 is
+		// however a regular point in time (long ago)
+		val = val.Add(time.Nanosecond)
+	}
+
+	return val
 }
